@@ -1,11 +1,11 @@
-(* C11 - property theorems only; each is closed by a lemma of Lemmas.v / Refuted.v.  `sched` ranges over every
+(* C11 - property theorems only; each is closed by a lemma of Lemmas.v / Release.v.  `sched` ranges over every
    interleaving of caller / tx / rx / user threads at their synchronisation points together with every behaviour
    of the environment (time-outs firing at any moment; the peer answering any outstanding request with a reply or
    an error reply, sending updates, staying idle, closing), `reqs` over every set of requests (any number of
    callers, equal or distinct keys, known or unknown actions). *)
 From Coq Require Import List Arith NArith Bool Lia.
 Import ListNotations.
-Require Import FV.Gen.C11 FV.C11.Model FV.C11.Lemmas.
+Require Import FV.Gen.C11 FV.C11.Model FV.C11.Lemmas FV.C11.ReleaseBase FV.C11.Release.
 
 (* obligations on the facts regenerated from /repo (Gen/C11.v): the code has the modelled shape, and no reply
    action of REQUEST2REPLY starts with the error prefix *)
@@ -64,8 +64,25 @@ Theorem C11_disconnect_never_raises : forall reqs sched,
   us s <> UDisc DExc /\ tx s <> TDisc DExc /\ rx s <> RDisc DExc.
 Proof. intros reqs sched. destruct (never_raises R2R ERR reqs sched) as [A [B C]]. repeat split; assumption. Qed.
 
-(* release on disconnect, the two repaired paths (were refuted before repair 14a9701: C11/txq-entry-lost-on-disconnect):
-   in every state, an entry that the drain of disconnect() takes out of txq gets its event set by the same thread
+(* RELEASE ON DISCONNECT (was refuted before repair 14a9701: C11/txq-entry-lost-on-disconnect; now the full
+   statement, no guard): for every set of requests and every schedule - connection lost by the peer, shut down by
+   the user, or both at once, requests queued at any moment - once the shutdown is complete (the tx thread cannot
+   transmit any more, the rx thread has left its loop, every disconnect() that was entered has returned) every
+   caller that is still waiting has had its event set, i.e. its next step returns its reply or a ConnectionError.
+   The invariant behind it (FV.C11.ReleaseBase.T, proved for every reachable state): a waiting caller whose event is
+   not set always has its entry in txq / pending / active_requests with a thread that will still look there, or in
+   the hand of a thread that sets the event next - no entry is ever dropped. *)
+Theorem C11_release_on_disconnect : forall reqs sched,
+  let s := run R2R ERR reqs sched in
+  quiescent s -> forall i, waiting s i = true -> memb i (evset s) = true.
+Proof. intros reqs sched. apply release_on_disconnect. Qed.
+
+Theorem C11_no_entry_lost : forall reqs sched i,
+  let s := run R2R ERR reqs sched in
+  waiting s i = true -> memb i (evset s) = false -> owedb s i = true.
+Proof. intros reqs sched i. destruct (INV_run R2R ERR reqs sched) as [HT _]. apply HT. Qed.
+
+(* the two repaired paths step by step: in every state, an entry that the drain of disconnect() takes out of txq gets its event set by the same thread
    before the next entry is taken ... *)
 Theorem C11_drained_entry_released : forall s e r, txq s = Some e :: r ->
   snd (dstep s DQDrop) = DQSet e /\
@@ -108,6 +125,19 @@ Example C11_demo :
   = [Some (true, 0); Some (false, 1)] /\ pending s = [] /\ active s = [].
 Proof. vm_compute. repeat split; reflexivity. Qed.
 
+(* non-vacuity of C11_release_on_disconnect: the schedule of corpus/C11/txq_entry_lost.json without the last step of
+   the callers (user disconnect drains the request of caller 0; caller 1 queues afterwards): the shutdown is
+   complete, both callers are still waiting, both events are set *)
+Example C11_release_demo :
+  let reqs := [([114; 101; 97; 100]%N, [109; 58; 112]%N); ([99; 104; 97; 110; 103; 101]%N, [109; 58; 113]%N)] in
+  let s := run R2R ERR reqs
+    [(TC 0, ANone); (TTx, ANone); (TRx, ANone); (TUser, ANone); (TUser, ANone); (TUser, ANone); (TUser, ANone);
+     (TUser, ANone); (TC 1, ANone); (TC 1, ANone); (TTx, ANone); (TTx, ANone); (TRx, ANone); (TRx, APeer PClose);
+     (TRx, ANone); (TRx, ANone); (TRx, ANone); (TRx, ANone); (TRx, ANone); (TUser, ANone); (TUser, ANone);
+     (TUser, ANone)] in
+  Wp s = false /\ cs s = [CWait; CWait] /\ memb 0 (evset s) = true /\ memb 1 (evset s) = true /\ us s = UDisc DFin.
+Proof. vm_compute. repeat split; reflexivity. Qed.
+
 Print Assumptions C11_source_facts.
 Print Assumptions C11_one_entry_per_key.
 Print Assumptions C11_answer_matched_to_own_entry.
@@ -115,6 +145,8 @@ Print Assumptions C11_entries_linear.
 Print Assumptions C11_answered_at_most_once.
 Print Assumptions C11_wait_bounded.
 Print Assumptions C11_disconnect_never_raises.
+Print Assumptions C11_release_on_disconnect.
+Print Assumptions C11_no_entry_lost.
 Print Assumptions C11_drained_entry_released.
 Print Assumptions C11_late_request_released.
 Print Assumptions C11_parked_requeued_every_turn.
